@@ -83,11 +83,15 @@ func VerifH_C18_L2_substitution() {
 	}
 	rj.Spec.Substitutions = subs
 	tmpl := verifTemplates[vz.Choice("template", len(verifTemplates))]
-	spec := v1.PodSpec{Containers: []v1.Container{{Name: "c", Image: tmpl, Args: []string{"plain"}}}}
+	spec := v1.PodSpec{
+		Containers:     []v1.Container{{Name: "c", Image: tmpl, Args: []string{"plain"}}},
+		InitContainers: []v1.Container{{Name: "i", Image: "init ${task.index_num} ${task.name}"}},
+	}
 	task := variablecontext.TaskSpec{Name: "job-x-0", Namespace: "ns", RetryIndex: 0, ParallelIndex: execution.ParallelIndex{IndexNumber: pointer.Int64(3)}}
 	vz.MapOrderNondetFor(subs)
 	r1 := SubstitutePodSpec(rj, spec, task)
 	for rep := 0; rep < vz.MapOrderReps(); rep++ {
+		vz.MapOrderNondetFor(subs) // another iteration order for the second call
 		r2 := SubstitutePodSpec(rj, spec, task)
 		if nested {
 			vz.Finding("F18-1")
@@ -95,6 +99,13 @@ func VerifH_C18_L2_substitution() {
 		vz.Assert(r1.Containers[0].Image == r2.Containers[0].Image, "C18/L2/same-result-every-time")
 	}
 	vz.Assert(spec.Containers[0].Image == tmpl, "C18/L2/template-not-modified-in-place")
+	vz.Assert(spec.InitContainers[0].Image == "init ${task.index_num} ${task.name}", "C18/L2/template-not-modified-in-place")
+	vz.Assert(r1.InitContainers[0].Image == "init 3 job-x-0", "C18/L2/init-containers-substituted")
+	// a second task created from the same Job object (another index) gets its own values
+	task2 := variablecontext.TaskSpec{Name: "job-y-0", Namespace: "ns", RetryIndex: 0, ParallelIndex: execution.ParallelIndex{IndexNumber: pointer.Int64(4)}}
+	r3 := SubstitutePodSpec(rj, spec, task2)
+	vz.Assert(r3.InitContainers[0].Image == "init 4 job-y-0", "C14/L1/each-task-gets-its-own-index-values")
+	vz.Assert(r3.InitContainers[0].Image == "init 4 job-y-0", "C18/L2/each-task-gets-its-own-values")
 	vz.Assert(r1.Containers[0].Args[0] == "plain", "C18/L2/other-text-untouched")
 	if !nested {
 		want := verifRefSubstitute(tmpl, []map[string]string{subs, variablecontext.ContextProvider.MakeVariablesFromJob(rj), variablecontext.ContextProvider.MakeVariablesFromTask(task)})
